@@ -459,8 +459,15 @@ func (d *dbt) checkDictionary(after string) {
 			if len(extra)+len(missing) > 0 || len(got) != int(ids.GetCardinality()) {
 				sort.Strings(extra)
 				sort.Strings(missing)
-				d.c.Fail("dictionary-ne-written", fmt.Sprintf("after %s: dictionary of %s.%s has %d ids; values not written under the key %q, written values missing %q",
-					after, name, k, ids.GetCardinality(), extra, missing))
+				ne, nm := len(extra), len(missing)
+				if ne > 5 {
+					extra = extra[:5]
+				}
+				if nm > 5 {
+					missing = append(missing[:3:3], missing[nm-2:]...)
+				}
+				d.c.Fail("dictionary-ne-written", fmt.Sprintf("after %s: dictionary of %s.%s has %d ids for %d written values; %d values not written under the key (e.g. %q), %d written values missing (e.g. %q)",
+					after, name, k, ids.GetCardinality(), len(vs), ne, extra, nm, missing))
 			}
 		}
 	}
